@@ -148,6 +148,11 @@ func init() {
 		x.set(c.st, h, nh)
 		r := Term{S: app("mk_Slice", arr, off, app("s.len", src.S), app("s.len", src.S)), Sort: SSlice, T: c.resTypes[0]}
 		c.res = []Term{x.nameTerm(c.n, "cloned", r)}
+		if simpleConst(heap) {
+			// the same fact at the level of the specification access s[i] (a consequence of the formulas above)
+			a, b := x.elemAt(h, nh, c.res[0].S, "j", es), x.elemAt(h, heap, src.S, "j", es)
+			c.n.assume(fmt.Sprintf("(forall ((j Int)) (! (=> (and (<= 0 j) (< j (s.len %s))) (= %s %s)) :pattern (%s) :pattern (%s)))", src.S, a, b, a, b))
+		}
 		return true
 	})
 	reg("slices.Contains", "result <==> exists j :: 0 <= j < len(s) && s[j] == v; no effects", func(c *callCtx) bool {
@@ -167,6 +172,89 @@ func init() {
 		c.res = []Term{r}
 		return true
 	})
+	reg("slices.Index", "the first index of v in s, or -1 when absent; no effects", func(c *callCtx) bool {
+		sl, ok := types.Unalias(c.argVals[0].Type()).Underlying().(*types.Slice)
+		if !ok {
+			return false
+		}
+		x := c.x
+		h := x.heapElem(sl.Elem())
+		es := x.ss.sortOf(sl.Elem())
+		s0 := c.args[0]
+		hs := x.get(c.st, h).S
+		at := x.elemAt(h, hs, s0.S, "j", es)
+		r := x.fresh("index", types.Typ[types.Int])
+		c.n.assume(mkAnd(app("<=", "(- 1)", r.S), app("<", r.S, app("s.len", s0.S))))
+		c.n.assume(mkImp(app(">=", r.S, "0"), mkEq(x.elemAt(h, hs, s0.S, r.S, es), c.args[1].S)))
+		c.n.assume(fmt.Sprintf("(forall ((j Int)) (! (=> (and (<= 0 j) (< j (ite (>= %s 0) %s (s.len %s)))) (not (= %s %s))) :pattern (%s)))", r.S, r.S, s0.S, at, c.args[1].S, at))
+		c.res = []Term{r}
+		return true
+	})
+	specMods["slices.Index"] = func(p *Program, c *ssa.CallCommon) []string { return nil }
+	reg("slices.Equal", "result <==> same length and equal elements at every index; no effects", func(c *callCtx) bool {
+		sl, ok := types.Unalias(c.argVals[0].Type()).Underlying().(*types.Slice)
+		if !ok {
+			return false
+		}
+		x := c.x
+		h := x.heapElem(sl.Elem())
+		es := x.ss.sortOf(sl.Elem())
+		a, b := c.args[0], c.args[1]
+		hs := x.get(c.st, h).S
+		ata := x.elemAt(h, hs, a.S, "j", es)
+		atb := x.elemAt(h, hs, b.S, "j", es)
+		r := x.fresh("equal", types.Typ[types.Bool])
+		c.n.assume(mkImp(r.S, mkEq(app("s.len", a.S), app("s.len", b.S))))
+		c.n.assume(mkImp(r.S, fmt.Sprintf("(forall ((j Int)) (! (=> (and (<= 0 j) (< j (s.len %s))) (= %s %s)) :pattern (%s) :pattern (%s)))", a.S, ata, atb, ata, atb)))
+		c.n.assume(mkImp(mkNot(r.S), mkOr(mkNot(mkEq(app("s.len", a.S), app("s.len", b.S))),
+			fmt.Sprintf("(exists ((j Int)) (and (<= 0 j) (< j (s.len %s)) (not (= %s %s))))", a.S, ata, atb))))
+		c.res = []Term{r}
+		return true
+	})
+	specMods["slices.Equal"] = func(p *Program, c *ssa.CallCommon) []string { return nil }
+	reg("slices.Delete", "removes s[i:j] in place: the result shares s's array, has length len(s)-(j-i), keeps s[:i] and holds old s[j:] from index i on; the vacated tail is zeroed; panics unless 0 <= i <= j <= len(s) (an obligation in safe functions)", func(c *callCtx) bool {
+		sl, ok := types.Unalias(c.argVals[0].Type()).Underlying().(*types.Slice)
+		if !ok {
+			return false
+		}
+		x := c.x
+		h := x.heapElem(sl.Elem())
+		es := x.ss.sortOf(sl.Elem())
+		s0, i, j := c.args[0].S, c.args[1].S, c.args[2].S
+		x.safety(c.fr, c.n, mkAnd(app("<=", "0", i), app("<=", i, j), app("<=", j, app("s.len", s0))), "slices.Delete-range", c.instr.Pos())
+		c.n.assume(mkAnd(app("<=", "0", i), app("<=", i, j), app("<=", j, app("s.len", s0))))
+		old := x.get(c.st, h).S
+		oldArr := app("select", old, app("s.arr", s0))
+		na := x.freshSort("deleted", "(Array Int "+es+")")
+		off := app("s.off", s0)
+		d := app("-", j, i)
+		// elementwise definition, stated once per trigger (new cell / old cell) so that membership facts flow both ways
+		c.n.assume(fmt.Sprintf("(forall ((k Int)) (! (= (select %s k) (ite (or (< k (+ %s %s)) (>= k (+ %s (s.len %s)))) (select %s k) (ite (< k (+ %s (- (s.len %s) %s))) (select %s (+ k %s)) %s))) :pattern ((select %s k))))",
+			na.S, off, i, off, s0, oldArr, off, s0, d, oldArr, d, x.ss.zeroOfSort(es, sl.Elem()), na.S))
+		c.n.assume(fmt.Sprintf("(forall ((k Int)) (! (=> (and (<= (+ %s %s) k) (< k (+ %s (s.len %s)))) (= (select %s (- k %s)) (select %s k))) :pattern ((select %s k))))",
+			off, j, off, s0, na.S, d, oldArr, oldArr))
+		c.n.assume(fmt.Sprintf("(forall ((k Int)) (! (=> (< k (+ %s %s)) (= (select %s k) (select %s k))) :pattern ((select %s k))))",
+			off, i, na.S, oldArr, oldArr))
+		x.setNamed(c.n, c.st, h, app("store", old, app("s.arr", s0), na.S))
+		r := app("mk_Slice", app("s.arr", s0), off, app("-", app("s.len", s0), d), app("s.cap", s0))
+		c.res = []Term{x.nameTerm(c.n, "deleted", Term{S: r, Sort: SSlice, T: c.resTypes[0]})}
+		// the same definition at the level of the specification access s[i] (consequences of the formulas above)
+		if nh := x.get(c.st, h).S; simpleConst(nh) && simpleConst(old) {
+			an := x.elemAt(h, nh, c.res[0].S, "k", es)
+			c.n.assume(fmt.Sprintf("(forall ((k Int)) (! (=> (and (<= 0 k) (< k (- (s.len %s) %s))) (= %s (ite (< k %s) %s %s))) :pattern (%s)))",
+				s0, d, an, i, x.elemAt(h, old, s0, "k", es), x.elemAt(h, old, s0, app("+", "k", d), es), an))
+			ao := x.elemAt(h, old, s0, "k", es)
+			c.n.assume(fmt.Sprintf("(forall ((k Int)) (! (and (=> (and (<= 0 k) (< k %s)) (= %s %s)) (=> (and (<= %s k) (< k (s.len %s))) (= %s %s))) :pattern (%s)))",
+				i, an, ao, j, s0, x.elemAt(h, nh, c.res[0].S, app("-", "k", d), es), ao, ao))
+		}
+		return true
+	})
+	specMods["slices.Delete"] = func(p *Program, c *ssa.CallCommon) []string {
+		if sl, ok := types.Unalias(c.Args[0].Type()).Underlying().(*types.Slice); ok {
+			return []string{p.heapElemName(sl.Elem())}
+		}
+		return nil
+	}
 	reg("slices.Max", "panics on an empty slice (an obligation in safe functions); the result is an element of the slice", func(c *callCtx) bool {
 		sl, ok := types.Unalias(c.argVals[0].Type()).Underlying().(*types.Slice)
 		if !ok {
